@@ -272,7 +272,7 @@ def renumber_cases():
             for sl in (slots[0], slots[-1]):
                 for alone in ('get_value_c', 'get_value_and_derivatives', 'values_from_database',
                               'refused:hessian-without-gradient', 'refused:variables-without-database',
-                              'second-model', 'second-model-on-the-sub-formula', 'null-loglikelihood'):
+                              'second-model', 'second-model-on-the-sub-formula', 'null-loglikelihood', 'other-parent'):
                     for then in ('simulate', 'prepared'):
                         out.append((si, p, sl, alone, then))
     return out
@@ -319,6 +319,12 @@ def _renumber(idx, rec):
         elif alone == 'get_value_and_derivatives':
             sub_e.get_value_and_derivatives(database=db, gradient=False, hessian=False, bhhh=False, aggregation=False,
                                             prepare_ids=True)
+        elif alone == 'other-parent':
+            # ANOTHER formula that contains the same sub-formula object is evaluated on its own (it has no numbering of its
+            # own to go back to): the numbering of the first parent must survive
+            import biogeme.expressions as ex
+            other_parent = ex.exp(sub_e * 0.125) + 1.0
+            other_parent.get_value_c(database=db, prepare_ids=True)
         elif alone == 'second-model-on-the-sub-formula':
             # a second model is built on the sub-formula only (fewer parameters, columns in another order): the enclosing
             # formula itself is not handed to it, only some of its nodes are numbered again
